@@ -172,6 +172,15 @@ func (a *app) ApplySnapshotChunk(req abci.RequestApplySnapshotChunk) abci.Respon
 		a.accepted[req.Index] = append([]byte{}, req.Chunk...)
 	}
 	a.mu.Unlock()
+	if len(res.RefetchChunks) > 0 || len(res.RejectSenders) > 0 {
+		var rp []int
+		for _, sid := range res.RejectSenders {
+			if p := a.w.peerIndex(sid); p >= 0 {
+				rp = append(rp, p)
+			}
+		}
+		a.w.sched.noteVerdict(res.RefetchChunks, rp, req.Index)
+	}
 	a.w.log.add(Ev{K: "apply-ret", P: sender, C: n, M: res.Result.String(), Refetch: res.RefetchChunks, Reject: res.RejectSenders, I: req.Index})
 	a.w.sched.after("after-apply", n, ctx)
 	return res
